@@ -7,21 +7,22 @@ the Honeycomb API with the same method, path, query, body and header values (plu
 X-Forwarded-For), and the upstream status, headers and body are returned to the client unchanged.
 Quantifier: all methods, paths, query strings, bodies and header sets, and all upstream responses.
 
-"Same header value" is equality of *field values* in the sense of RFC 7230 §3.2.2: the values of
-all lines with one name combined with commas (`fieldValue`).  The handler turns every header into
-a single comma-joined line, which leaves that field value unchanged.  The one header for which the
-combined field value is **not** the meaning of the lines, `Set-Cookie`, is not folded into that
-definition: it is the separate proposition `SetCookiePreserved`, refuted below.
+"Same header value" on the request side is equality of *field values* in the sense of RFC 7230
+§3.2.2: the values of all lines with one name combined with commas (`fieldValue`).  The handler
+turns every request header into a single comma-joined line, which leaves that field value
+unchanged.  On the response side the handler (since commit ceac3fa) relays every header line for
+line, so the one header for which the combined field value is **not** the meaning of the lines,
+`Set-Cookie`, is preserved too: that is the separate proposition `SetCookiePreserved`, proved below
+(it was refuted for the code before the repair).  Likewise `XffAllLines` (every X-Forwarded-For
+line is kept, commit 1274516) is now proved.
 
-Four parts of the statement do not hold for the code as it is (each reproduced on the real code by
-the harness); they are kept as propositions and refuted with witnesses:
+Two parts of the statement still do not hold for the code as it is (each reproduced on the real
+code by the harness); they are kept as propositions and refuted with witnesses:
 
 * `AlwaysRelayed`            — a path with an empty / `.` / `..` segment is answered 301 by the mux;
-* `UpstreamResponseReturned` — the proxy's `http.Client` follows 301/302/303/307/308 itself;
-* `XffAllLines`              — only the first `X-Forwarded-For` line survives;
-* `SetCookiePreserved`       — several `Set-Cookie` lines reach the client as one joined line.
+* `UpstreamResponseReturned` — the proxy's `http.Client` follows 301/302/303/307/308 itself.
 
-What does hold is proved as the `_partial` theorems, for all requests, responses and upstreams.
+What does hold is proved for all requests, responses and upstreams.
 -/
 namespace Refinery.Props.C37
 open Refinery Refinery.Model.Proxy
@@ -50,7 +51,55 @@ theorem get_copyHeaders (src dst : Headers) (hn : AList.NoDupKeys src) (n : Stri
     · simp [h]
 
 theorem fieldValue_joined (vs : List String) : fieldValue (some [joinVals vs]) = fieldValue (some vs) := by
-  simp [fieldValue, joinVals]
+  simp [fieldValue, joinVals, joinSep]
+
+/-- What the line-for-line copy loop leaves under each name: the source's lines for names of the
+source, the previous content for all other names. -/
+theorem get_copyLines (src dst : Headers) (hn : AList.NoDupKeys src) (n : String) :
+    AList.get (copyLines src dst) n =
+      match AList.get src n with
+      | some vs => some vs
+      | none => AList.get dst n := by
+  induction src generalizing dst with
+  | nil => simp [copyLines]
+  | cons kv t ih =>
+    obtain ⟨k, v⟩ := kv
+    simp only [AList.NoDupKeys, AList.keys, List.map_cons, List.nodup_cons] at hn
+    have ih' := ih (AList.put dst k v) hn.2
+    simp only [copyLines, List.foldl_cons] at ih' ⊢
+    rw [ih', AList.get_cons, AList.get_put]
+    by_cases h : k = n
+    · subst h
+      have : AList.get t k = none := (AList.get_eq_none_iff t k).mpr hn.1
+      simp [this]
+    · simp [h]
+
+theorem joinSep_snoc (sep : String) (l : List String) (x : String) (h : l ≠ []) :
+    joinSep sep (l ++ [x]) = joinSep sep l ++ sep ++ x := by
+  induction l with
+  | nil => exact absurd rfl h
+  | cons v t ih =>
+    cases t with
+    | nil => simp [joinSep]
+    | cons w t' =>
+      have := ih (by simp)
+      simp only [List.cons_append, joinSep] at this ⊢
+      rw [this]
+      simp [String.append_assoc]
+
+theorem joinSep_comma_space_eq_empty (vs : List String) :
+    joinSep ", " vs = "" ↔ vs = [] ∨ vs = [""] := by
+  match vs with
+  | [] => simp [joinSep]
+  | [v] => simp [joinSep]
+  | v :: w :: t =>
+    simp only [joinSep]
+    constructor
+    · intro h
+      have := congrArg String.toList h
+      have hs : (", " : String).toList = [',', ' '] := rfl
+      simp [String.toList_append, hs] at this
+    · intro h; simp at h
 
 /-- every header of the upstream request, by name -/
 theorem relay_header (target : String) (r : Req) (hn : AList.NoDupKeys r.headers) (n : String) :
@@ -66,52 +115,45 @@ theorem relay_header (target : String) (r : Req) (hn : AList.NoDupKeys r.headers
 
 /-! ## Request side -/
 
-/-- What the code does with X-Forwarded-For for *every* request: first line (or nothing) + remote
-address.  Later lines are overwritten. -/
-theorem xff_first_line_only (target : String) (r : Req) (hn : AList.NoDupKeys r.headers) :
+/-- **X-Forwarded-For, every line kept** — for every request the upstream gets one
+X-Forwarded-For line: all the client's X-Forwarded-For lines in order, then the remote address,
+separated by ", ". -/
+theorem xff_all_lines (target : String) (r : Req) (hn : AList.NoDupKeys r.headers) :
     AList.get (relay target r).headers xffName =
-      some [appendAddr (headerGet r.headers xffName) r.remoteAddr] := by
+      some [joinSep ", " (xffLines r.headers ++ [r.remoteAddr])] := by
   rw [relay_header target r hn xffName, if_pos rfl]
-  rfl
+  simp only [xffValue, headerValues, xffLines]
+  cases hg : AList.get r.headers xffName with
+  | none => simp [joinSep]
+  | some vs =>
+    simp only [Option.getD_some]
+    by_cases h1 : vs = [""]
+    · simp [h1, joinSep]
+    · by_cases h0 : vs = []
+      · simp [h0, joinSep]
+      · have hne : joinSep ", " vs ≠ "" := fun e =>
+          ((joinSep_comma_space_eq_empty vs).mp e).elim h0 h1
+        simp only [h1, if_false, bne_iff_ne, ne_eq, hne, not_false_eq_true, if_true]
+        rw [joinSep_snoc _ _ _ h0]
 
-/-- at most one line with that name -/
-def SingleLine : Option (List String) → Prop
-  | none => True
-  | some vs => vs.length ≤ 1
-
-/-- **request_preserved (partial)** — for every request, the request handed to the upstream has
-the same method, the URL `configured address ++ path ++ ?query`, the same body; for every header
-name other than X-Forwarded-For the same field value (absent iff absent); and, when the client
-sent X-Forwarded-For on at most one line, X-Forwarded-For = old value + remote address. -/
-theorem request_preserved_partial (target : String) (r : Req) (hn : AList.NoDupKeys r.headers) :
+/-- **request_preserved** — for every request, the request handed to the upstream has the same
+method, the URL `configured address ++ path ++ ?query`, the same body; for every header name other
+than X-Forwarded-For the same field value (absent iff absent); and X-Forwarded-For = every line the
+client sent + the remote address. -/
+theorem request_preserved (target : String) (r : Req) (hn : AList.NoDupKeys r.headers) :
     (relay target r).method = r.method ∧
     (relay target r).url = target ++ urlString r ∧
     (relay target r).body = r.body ∧
     (∀ n, n ≠ xffName →
       fieldValue (AList.get (relay target r).headers n) = fieldValue (AList.get r.headers n)) ∧
-    (SingleLine (AList.get r.headers xffName) →
-      fieldValue (AList.get (relay target r).headers xffName) =
-        some (appendAddr ((fieldValue (AList.get r.headers xffName)).getD "") r.remoteAddr)) := by
-  refine ⟨rfl, rfl, rfl, ?_, ?_⟩
-  · intro n hne
-    rw [relay_header target r hn n, if_neg (fun h => hne h.symm)]
-    cases AList.get r.headers n with
-    | none => rfl
-    | some vs => exact fieldValue_joined vs
-  · intro hs
-    rw [xff_first_line_only target r hn]
-    have key : headerGet r.headers xffName = (fieldValue (AList.get r.headers xffName)).getD "" := by
-      unfold headerGet fieldValue
-      revert hs
-      cases AList.get r.headers xffName with
-      | none => intro _; rfl
-      | some vs =>
-        intro hs
-        match vs, hs with
-        | [], _ => rfl
-        | [v], _ => rfl
-    rw [key]
-    rfl
+    AList.get (relay target r).headers xffName =
+      some [joinSep ", " (xffLines r.headers ++ [r.remoteAddr])] := by
+  refine ⟨rfl, rfl, rfl, ?_, xff_all_lines target r hn⟩
+  intro n hne
+  rw [relay_header target r hn n, if_neg (fun h => hne h.symm)]
+  cases AList.get r.headers n with
+  | none => rfl
+  | some vs => exact fieldValue_joined vs
 
 /-- No header is invented: every header of the upstream request is X-Forwarded-For or a header
 the client sent. -/
@@ -151,77 +193,78 @@ theorem url_splits_back (r : Req) (hp : '?' ∉ r.path.toList) :
     have : ("" : String).toList = [] := rfl
     simp [this, splitQ, String.ofList_toList]
 
-/-- The property's X-Forwarded-For clause at full strength: old field value + remote address. -/
+/-- The property's X-Forwarded-For clause at full strength: every line the client sent, then the
+remote address. -/
 def XffAllLines : Prop :=
   ∀ (target : String) (r : Req), AList.NoDupKeys r.headers →
-    fieldValue (AList.get (relay target r).headers xffName) =
-      some (appendAddr ((fieldValue (AList.get r.headers xffName)).getD "") r.remoteAddr)
+    AList.get (relay target r).headers xffName =
+      some [joinSep ", " (xffLines r.headers ++ [r.remoteAddr])]
+
+/-- Holds since commit 1274516 (it was refuted before: only the first line survived). -/
+theorem xff_all_lines_holds : XffAllLines := xff_all_lines
 
 def xffWitness : Req :=
   { method := "GET", path := "/1/auth", dpath := "/1/auth", rawQuery := "", forceQuery := false,
     headers := [("X-Forwarded-For", ["203.0.113.7", "198.51.100.23"])], body := "",
     remoteAddr := "10.0.0.9:4711" }
 
-/-- Refuted: with X-Forwarded-For on two lines the second address is lost. -/
-theorem xff_all_lines_refuted : ¬ XffAllLines := by
-  intro h
-  have := h "http://api" xffWitness (by unfold AList.NoDupKeys AList.keys; decide)
-  revert this
-  decide
-
-example : fieldValue (AList.get (relay "http://api" xffWitness).headers xffName)
-    = some "203.0.113.7, 10.0.0.9:4711" := by decide
+example : AList.get (relay "http://api" xffWitness).headers xffName
+    = some ["203.0.113.7, 198.51.100.23, 10.0.0.9:4711"] := by decide
+example : AList.get (relay "http://api" { xffWitness with headers := [] }).headers xffName
+    = some ["10.0.0.9:4711"] := by decide
 
 /-! ## Response side -/
 
-/-- **response_preserved (partial)** — for every response the HTTP client returns, the client of
-the proxy gets the same status and body; every header the upstream sent arrives with the same field
-value; and the only other headers are the ones the middleware had preset (they show through only
-under names the upstream did not send). -/
-theorem response_preserved_partial (defaults : Headers) (rs : Resp) (hn : AList.NoDupKeys rs.headers) :
+/-- **response_preserved** — for every response the HTTP client returns, the client of the proxy
+gets the same status and body; every header the upstream sent arrives line for line (hence with
+the same field value); and the only other headers are the ones the middleware had preset (they
+show through only under names the upstream did not send). -/
+theorem response_preserved (defaults : Headers) (rs : Resp) (hn : AList.NoDupKeys rs.headers) :
     (relayBack defaults rs).status = rs.status ∧
     (relayBack defaults rs).body = rs.body ∧
     (∀ n, n ∈ AList.keys rs.headers →
-      fieldValue (AList.get (relayBack defaults rs).headers n) = fieldValue (AList.get rs.headers n)) ∧
+      AList.get (relayBack defaults rs).headers n = AList.get rs.headers n) ∧
     (∀ n, n ∉ AList.keys rs.headers →
       AList.get (relayBack defaults rs).headers n = AList.get defaults n) := by
   refine ⟨rfl, rfl, ?_, ?_⟩
   · intro n hmem
     simp only [relayBack]
-    rw [get_copyHeaders _ _ hn]
+    rw [get_copyLines _ _ hn]
     rw [AList.mem_keys_iff] at hmem
     cases hg : AList.get rs.headers n with
     | none => simp [hg] at hmem
-    | some vs => exact fieldValue_joined vs
+    | some vs => rfl
   · intro n hmem
     simp only [relayBack]
-    rw [get_copyHeaders _ _ hn, (AList.get_eq_none_iff _ _).mpr hmem]
+    rw [get_copyLines _ _ hn, (AList.get_eq_none_iff _ _).mpr hmem]
 
-/-- The `Set-Cookie` clause: the client gets the cookies the upstream set. -/
+/-- corollary in the property's vocabulary: same field value for every upstream header -/
+theorem response_field_values (defaults : Headers) (rs : Resp) (hn : AList.NoDupKeys rs.headers)
+    (n : String) (hmem : n ∈ AList.keys rs.headers) :
+    fieldValue (AList.get (relayBack defaults rs).headers n) = fieldValue (AList.get rs.headers n) := by
+  rw [(response_preserved defaults rs hn).2.2.1 n hmem]
+
+/-- The `Set-Cookie` clause: the client gets exactly the cookies the upstream set, one per line
+(the middleware presets no cookie of its own). -/
 def SetCookiePreserved : Prop :=
   ∀ (defaults : Headers) (rs : Resp), AList.NoDupKeys rs.headers →
+    AList.get defaults "Set-Cookie" = none →
     cookies (relayBack defaults rs).headers = cookies rs.headers
+
+/-- Holds since commit ceac3fa (it was refuted before: the lines were joined with commas). -/
+theorem set_cookie_preserved : SetCookiePreserved := by
+  intro defaults rs hn hd
+  simp only [cookies, relayBack]
+  rw [get_copyLines _ _ hn]
+  cases AList.get rs.headers "Set-Cookie" with
+  | none => simp [hd]
+  | some vs => rfl
 
 def cookieWitness : Resp :=
   { status := 200, headers := [("Set-Cookie", ["a=1; Path=/", "b=2; Path=/"])], body := "{}" }
 
-/-- Refuted: two cookies reach the client as one `Set-Cookie` line that no cookie parser splits
-back (RFC 6265 §3: "folding … might change the semantics"). -/
-theorem set_cookie_preserved_refuted : ¬ SetCookiePreserved := by
-  intro h
-  have := h [] cookieWitness (by unfold AList.NoDupKeys AList.keys; decide)
-  revert this
-  decide
-
-example : cookies (relayBack [] cookieWitness).headers = ["a=1; Path=/,b=2; Path=/"] := by decide
-
-/-- **Set-Cookie (partial)** — a single `Set-Cookie` line is passed on as it is. -/
-theorem set_cookie_single_line_partial (defaults : Headers) (rs : Resp) (hn : AList.NoDupKeys rs.headers)
-    (c : String) (h : AList.get rs.headers "Set-Cookie" = some [c]) :
-    cookies (relayBack defaults rs).headers = [c] := by
-  simp only [cookies, relayBack]
-  rw [get_copyHeaders _ _ hn, h]
-  simp [joinVals]
+example : cookies (relayBack [("Content-Type", ["application/json"])] cookieWitness).headers
+    = ["a=1; Path=/", "b=2; Path=/"] := by decide
 
 /-! ## The whole exchange: mux, handler, HTTP client -/
 
@@ -295,7 +338,7 @@ theorem upstream_response_returned_without_follow : UpstreamResponseReturned fal
 
 /-- **response (partial), the client as built** — every upstream answer other than a
 301/302/303/307/308 carrying a Location is returned: one upstream request, same status, same body,
-headers as in `response_preserved_partial`. -/
+headers as in `response_preserved`. -/
 theorem upstream_response_returned_partial (follow : Bool) (defaults : Headers) (target : String)
     (redir : UpReq → Resp → UpReq) (up : UpReq → Resp) (r : Req) (hc : isCleanPath r.dpath = true)
     (hnr : isRedirect (up (relay target r)).status = false
@@ -309,7 +352,8 @@ theorem upstream_response_returned_partial (follow : Bool) (defaults : Headers) 
 def FullStatement (follow : Bool) : Prop :=
   AlwaysRelayed ∧ UpstreamResponseReturned follow ∧ XffAllLines ∧ SetCookiePreserved
 
-/-- The full statement does not hold for the code as it is, whatever the redirect policy. -/
+/-- The full statement still does not hold for the code as it is, whatever the redirect policy
+(unclean paths); with a client that does not follow redirects only `AlwaysRelayed` is missing. -/
 theorem full_statement_refuted (follow : Bool) : ¬ FullStatement follow :=
   fun h => always_relayed_refuted h.1
 
@@ -328,7 +372,7 @@ example : AList.get (relay "http://api" sampleReq).headers "X-Forwarded-For"
 example : serve true [("Content-Type", ["application/json"])] "http://api" (fun q _ => q)
       (fun _ => ⟨404, [("Vary", ["Accept", "Origin"])], "nope"⟩) sampleReq
     = .relayed (relay "http://api" sampleReq) 1
-        ⟨404, [("Vary", ["Accept,Origin"]), ("Content-Type", ["application/json"])], "nope"⟩ := by decide
+        ⟨404, [("Vary", ["Accept", "Origin"]), ("Content-Type", ["application/json"])], "nope"⟩ := by decide
 example : isCleanPath "/1/markers/my/ds" = true ∧ isCleanPath "/1/markers//ds" = false
     ∧ isCleanPath "/1/../ds" = false ∧ isCleanPath "/1/a/" = true := by decide
 
